@@ -179,6 +179,12 @@ fn base_scenario(prop: &str, world: WorldKind, backend: &str, ty: usize, seed: u
 /// Half of the jobs go to the 24 hand-written types (special shapes: FlexVec, portable, nested,
 /// arrays ...), half to the 128 generated family instantiations.
 pub fn job_type(idx: u64) -> usize {
+    // debugging aid: FLATSIM_ONLY_TYPE=<substring of a type name> maps every job to that type
+    if let Ok(pat) = std::env::var("FLATSIM_ONLY_TYPE") {
+        if let Some(i) = (0..N_TYPES).find(|&i| type_name(i).contains(&pat)) {
+            return i;
+        }
+    }
     let slot = idx % (2 * N_HAND as u64);
     if slot < N_HAND as u64 {
         slot as usize
